@@ -181,6 +181,11 @@ void supla_verif_hook_rs_trigger_fired(supla_roller_shutter_cfg_t *rs_cfg) {
   if (fw_hook_rs_log) sdk_out("TRIGFIRE %d %llu", (int)(rs_cfg - supla_rs_cfg), (unsigned long long)sdk_now_us);
 }
 
+int fw_hook_relay_log = 0;
+void supla_verif_hook_relay_hi(int port, unsigned char hi) {
+  if (fw_hook_relay_log) sdk_out("RELAYHI %d %u %llu", port, hi, (unsigned long long)sdk_now_us);
+}
+
 #ifdef MQTT_SUPPORT_ENABLED
 /* ---- MQTT board hooks: print what the command handler is given ---- */
 #include <supla_esp_mqtt.h>
